@@ -20,7 +20,9 @@ LEEDS_CODES = [1, 2, 3, 4, 5, 6, 7, 8, 9, 10, 11, 12, 13, 14, 20]
 UCL_CODES = ["MA", "CRP", "PHOTON", "CRPHOT", "FREEZE", "DESOH2", "DESCR", "DEUVCR", "THERM", "DIFF", "CHEMDES"]
 MARK = {"kida": {1: "CR", 2: "Photon"}, "umist": {"CP": "CRP", "CR": "CRPHOT", "PH": "PHOTON"}}
 KROME_T = [("NONE", -1.0), ("N/A", -1.0), ("", -1.0), (">10", 10.0), (".GE.1d2", 100.0), (".LE.2.d3", 2000.0), ("1.0d4", 10000.0),
-           ("<1e4", 10000.0), ("5.5e3", 5500.0), ("1160", 1160.0)]
+           ("<1e4", 10000.0), ("5.5e3", 5500.0), ("1160", 1160.0),
+           # a limit that is exactly zero, in every spelling the reader accepts (0.0 is a value, not "no limit")
+           ("0", 0.0), ("0.0", 0.0), ("0d0", 0.0), (">0", 0.0), (".GE.0d0", 0.0), ("<0.0", 0.0)]
 
 
 def fl(x) -> str:
@@ -165,6 +167,12 @@ def gen_file(rng: random.Random, fmt: str, custom: bool = False, first_format: s
 DUMMY = {"r": [], "p": [], "a": "0.0", "b": "0.0", "c": "0.0", "tmin": "-1.0", "tmax": "-1.0", "idx": -1, "code": 0}
 
 
+def seen(x) -> dict:
+    return {"r": [s.name for s in x.reactants], "p": [s.name for s in x.products], "a": fl(x.alpha), "b": fl(x.beta),
+            "c": fl(x.gamma), "tmin": fl(x.temp_min), "tmax": fl(x.temp_max), "idx": x.idxfromfile,
+            "ty": int(x.reaction_type) if x.reaction_type is not None else -1}
+
+
 def main(ctx: Ctx) -> int:
     import_naunet()
     from naunet.network import Network
@@ -206,17 +214,28 @@ def main(ctx: Ctx) -> int:
                 # (no reset BEFORE a network with its own lists: a user process does not call one either; the lists are restored afterwards)
                 kw = {"elements": list(Species.default_elements), "pseudo_elements": list(Species.default_pseudoelements) + USER_MARKERS} if custom else {}
                 net = Network(filelist=str(f), fileformats=fmt, **kw)
-                for x in net.reaction_list:
-                    obs["reactions"].append({"r": [s.name for s in x.reactants], "p": [s.name for s in x.products], "a": fl(x.alpha), "b": fl(x.beta),
-                                             "c": fl(x.gamma), "tmin": fl(x.temp_min), "tmax": fl(x.temp_max), "idx": x.idxfromfile,
-                                             "ty": int(x.reaction_type) if x.reaction_type is not None else -1})
+                obs["reactions"] = [seen(x) for x in net.reaction_list]
             except Exception as e:   # noqa
                 obs = {"ok": False, "reactions": [], "err": f"{type(e).__name__}: {str(e)[:100]}"}
+            obs2 = None
+            if custom and obs["ok"] and not again:
+                # the same file added once more to the same network AFTER another network with the same elements and other marker
+                # tokens was created in the process: the first network still reads with ITS marker list
+                obs2 = {"ok": True, "reactions": [], "err": ""}
+                try:
+                    n0 = len(net.reaction_list)
+                    Network(elements=list(Species.default_elements), pseudo_elements=list(Species.default_pseudoelements) + ["UV"])
+                    net.add_reaction_from_file(str(f), fmt)
+                    obs2["reactions"] = [seen(x) for x in net.reaction_list[n0:]]
+                except Exception as e:   # noqa
+                    obs2 = {"ok": False, "reactions": [], "err": f"{type(e).__name__}: {str(e)[:100]}"}
             if custom:
                 Species.reset()
             ndata = sum(1 for ln in lines if ln["cls"] == "data")
-            traces.append({"tid": len(traces) + 1, "fmt": fmt, "file": lines, "obs": obs, "window_exempt": exempt + [False] * (len(obs["reactions"]) + ndata),
-                           "text": text})
+            for o in (obs, obs2):
+                if o is not None:
+                    traces.append({"tid": len(traces) + 1, "fmt": fmt, "file": lines, "obs": o,
+                                   "window_exempt": exempt + [False] * (len(o["reactions"]) + ndata), "text": text})
     v = validate_traces(ctx, "Trace_Formats.tla", "Trace_Formats.cfg", [{k: t[k] for k in ("tid", "fmt", "file", "obs", "window_exempt")} for t in traces], "fmt")
     cov["traces_validated_against_impl"] = len(traces)
     cov["traces_accepted"] = v["accepted"]
